@@ -153,13 +153,14 @@ func runC11(c *Ctx) {
 	// ---- C11.5 previous outputs do not feed the generator
 	if pf := genFn(c, "C11.5", "(*Parser).ParseFile"); pf != nil {
 		nGuarded := 0
-		for _, cs := range callsIn(pf) {
-			callee := cs.common.StaticCallee()
-			if callee == nil || cs.value() == nil || !strings.HasSuffix(callee.String(), "VarPool).GetName") {
-				continue
-			}
+		for _, chain := range poolCallChains(c, pf, func(callee *ssa.Function) bool { return strings.HasSuffix(callee.String(), "VarPool).GetName") }) {
+			cs := callSite{instr: chain[len(chain)-1]}
 			guarded := false
-			for _, iff := range controllingIfs(cs.instr) {
+			var ifs []*ssa.If
+			for _, link := range chain {
+				ifs = append(ifs, controllingIfs(link)...)
+			}
+			for _, iff := range ifs {
 				conds := []ssa.Value{iff.Cond}
 				if ph, ok := iff.Cond.(*ssa.Phi); ok {
 					conds = ph.Edges
